@@ -66,7 +66,8 @@ func isContainer(t *ref.Type) bool {
 // eq compares two present values of type t.  (A nil container nested in a
 // container is the empty one: "nil and empty containers count as equal".)
 func (c conv) eq(t *ref.Type, a, b ref.V) bool {
-	if isContainer(t) {
+	if isContainer(t) || t.Kind == ref.Binary {
+		// a nil slice/map as an element or map value has no "unset" reading: it is the empty one
 		if a == nil {
 			a = ref.Zero(t)
 		}
@@ -830,6 +831,7 @@ func (m *mutator) mutValue(t *ref.Type, v ref.V, d int) (ref.V, bool) {
 type site struct {
 	apply func()
 	list  *ref.ListV
+	et    *ref.Type // element type (set sites)
 	depth int
 }
 
@@ -844,11 +846,13 @@ func nilEmptySites(t *ref.Type, v ref.V, d int, out *[]site) {
 			return len(v.(*ref.ListV).E) == 0
 		case ref.Map:
 			return len(v.(*ref.MapV).K) == 0
+		case ref.Binary:
+			return len(v.([]byte)) == 0
 		}
 		return false
 	}
 	slot := func(et *ref.Type, vs []ref.V, i int) {
-		if !isContainer(et) {
+		if !isContainer(et) && et.Kind != ref.Binary {
 			return
 		}
 		if vs[i] == nil {
@@ -916,7 +920,7 @@ func nilStructSites(t *ref.Type, v ref.V, d int, out *[]site) {
 	}
 }
 
-// setSites: non-empty sets anywhere in the value.
+// setSites: sets (also empty ones) anywhere in the value.
 func setSites(t *ref.Type, v ref.V, d int, out *[]site) {
 	if v == nil {
 		return
@@ -924,8 +928,8 @@ func setSites(t *ref.Type, v ref.V, d int, out *[]site) {
 	switch t.Kind {
 	case ref.List, ref.Set:
 		l := v.(*ref.ListV)
-		if t.Kind == ref.Set && len(l.E) > 0 {
-			*out = append(*out, site{depth: d, list: l})
+		if t.Kind == ref.Set {
+			*out = append(*out, site{depth: d, list: l, et: t.Elem})
 		}
 		for _, e := range l.E {
 			setSites(t.Elem, e, d+1, out)
@@ -979,7 +983,7 @@ func hasStructKeyedMap(t *ref.Type, v ref.V) bool {
 
 // kinds of pairs, with their weights
 var kinds = []string{"copy", "one_leaf", "one_leaf", "one_leaf", "one_leaf", "one_leaf", "one_leaf", "one_leaf", "nil_empty_container", "same_object",
-	"nil_pointer", "nil_struct_field", "independent", "write", "write", "write"}
+	"nil_pointer", "nil_struct_field", "independent", "write", "write", "write", "write"}
 
 // reaches: does the type contain (at any depth) a type satisfying pred?
 func reaches(t *ref.Type, pred func(*ref.Type) bool, seen map[*ref.StructT]bool) bool {
@@ -1004,6 +1008,102 @@ func reaches(t *ref.Type, pred func(*ref.Type) bool, seen map[*ref.StructT]bool)
 	return reaches(t.Key, pred, seen) || reaches(t.Elem, pred, seen)
 }
 
+// defReaches: does the written type mention the definition (through typedefs, containers, fields)?
+func defReaches(t *idl.Type, target *idl.Def, seen map[*idl.Def]bool) bool {
+	if t == nil {
+		return false
+	}
+	t = t.Final()
+	if t.Ref != nil {
+		if t.Ref == target {
+			return true
+		}
+		if seen[t.Ref] {
+			return false
+		}
+		seen[t.Ref] = true
+		for _, f := range t.Ref.Fields {
+			if defReaches(f.Type, target, seen) {
+				return true
+			}
+		}
+		return false
+	}
+	return defReaches(t.Key, target, seen) || defReaches(t.Elem, target, seen)
+}
+
+// enrich appends to two structs out of three one field holding a set whose
+// elements are not struct-likes but containers, binaries or maps with struct
+// keys (also nested in a list / map): the model's own generator makes such
+// sets rarely, and they are where the uniqueness check of Write and
+// DeepEqual must agree on nil = empty and on keys compared by value.  Key
+// structs come from the same file and do not lead back to the enriched struct.
+func enrich(rt *rapid.T, p *idl.Program) {
+	b := func(n string) *idl.Type { return &idl.Type{Base: n} }
+	list := func(e *idl.Type) *idl.Type { return &idl.Type{Base: "list", Elem: e} }
+	set := func(e *idl.Type) *idl.Type { return &idl.Type{Base: "set", Elem: e} }
+	mp := func(k, e *idl.Type) *idl.Type { return &idl.Type{Base: "map", Key: k, Elem: e} }
+	n := 0
+	for _, f := range p.Files {
+		for _, d := range f.DefsOf(idl.KStruct) {
+			if rapid.IntRange(0, 2).Draw(rt, "addset") == 0 {
+				continue
+			}
+			max := int32(0)
+			names := map[string]bool{}
+			for _, x := range d.Fields {
+				if x.ID > max {
+					max = x.ID
+				}
+				names[x.Name] = true
+			}
+			if max > 30000 {
+				continue
+			}
+			var keys []*idl.Def
+			for _, k := range f.DefsOf(idl.KStruct) {
+				if k != d && !defReaches(&idl.Type{Ref: k}, d, map[*idl.Def]bool{}) {
+					keys = append(keys, k)
+				}
+			}
+			shape := rapid.IntRange(0, 7).Draw(rt, "setshape")
+			if len(keys) == 0 && (shape == 3 || shape == 7) {
+				shape--
+			}
+			var t *idl.Type
+			switch shape {
+			case 0:
+				t = set(list(b("i32")))
+			case 1:
+				t = set(b("binary"))
+			case 2:
+				t = set(mp(b("string"), b("i32")))
+			case 3:
+				t = set(mp(&idl.Type{Ref: rapid.SampledFrom(keys).Draw(rt, "keystruct")}, b("string")))
+			case 4:
+				t = list(set(list(b("string"))))
+			case 5:
+				t = mp(b("string"), set(list(b("string"))))
+			case 6:
+				t = set(list(b("binary")))
+			default:
+				t = set(list(mp(&idl.Type{Ref: rapid.SampledFrom(keys).Draw(rt, "keystruct")}, b("bool"))))
+			}
+			n++
+			name := fmt.Sprintf("fsetx%d", n)
+			for names[name] {
+				name += "x"
+			}
+			req := idl.ReqDefault
+			if rapid.IntRange(0, 2).Draw(rt, "setoptional") == 0 {
+				req = idl.ReqOptional
+			}
+			d.Fields = append(d.Fields, &idl.Field{ID: max + int32(rapid.IntRange(1, 3).Draw(rt, "setid")), Explicit: true, Name: name, Req: req, Type: t})
+			vt.Class(fmt.Sprintf("enriched_set_shape:%d", shape))
+		}
+	}
+}
+
 func depthClass(d int) string {
 	if d >= 4 {
 		return "depth:4+"
@@ -1014,6 +1114,7 @@ func depthClass(d int) string {
 func TestDeepEqual(t *testing.T) {
 	rapid.Check(t, func(rt *rapid.T) {
 		p := idl.Gen(rt, modelCfg())
+		enrich(rt, p)
 		sch := ref.Build(p)
 		if len(sch.Structs) == 0 {
 			rt.Skip("no struct-like in the program")
@@ -1044,6 +1145,7 @@ func TestDeepEqual(t *testing.T) {
 			a, b := x, clone(x).(*ref.StructV)
 			mu := &mutator{rt: rt}
 			depth := 0
+			inj, injElem, injSK := "", "", false
 			kind := kinds[rapid.IntRange(0, len(kinds)-1).Draw(rt, "kind")]
 			if kind == "write" && !validateSet {
 				vt.Class("write_skipped:validate_set=false")
@@ -1102,12 +1204,76 @@ func TestDeepEqual(t *testing.T) {
 				c.Mode, c.Kind = "write", "set_unique"
 				if rapid.IntRange(0, 3).Draw(rt, "inject") > 0 {
 					setSites(top, a, 0, &sites)
-					if len(sites) > 0 {
-						s := rapid.SampledFrom(sites).Draw(rt, "site")
+					// 0: exact copy of an element; 1: a nil and an empty element (container or binary elements);
+					// 2: copy of an element with one nil<->empty toggle inside: equal, not identical
+					how := []int{0, 1, 1, 2, 2}[rapid.IntRange(0, 4).Draw(rt, "injecthow")]
+					pick := func(how int) (cands []site) {
+						for _, s := range sites {
+							if how == 1 && (isContainer(s.et) || s.et.Kind == ref.Binary) || how != 1 && len(s.list.E) > 0 {
+								cands = append(cands, s)
+							}
+						}
+						return cands
+					}
+					cands := pick(how)
+					if len(cands) == 0 {
+						how = 1 - how%2 // 0,2 -> 1; 1 -> 0
+						cands = pick(how)
+					}
+					// elements holding a struct-keyed map (equal by value, never by pointer) get half of the copies
+					skElems := func(s site) (idx []int) {
+						for i, e := range s.list.E {
+							if hasStructKeyedMap(s.et, e) {
+								idx = append(idx, i)
+							}
+						}
+						return idx
+					}
+					if how != 1 {
+						var sk []site
+						for _, s := range cands {
+							if len(skElems(s)) > 0 {
+								sk = append(sk, s)
+							}
+						}
+						if len(sk) > 0 && rapid.Bool().Draw(rt, "preferstructkeys") {
+							cands = sk
+						} else {
+							skElems = func(site) []int { return nil }
+						}
+					}
+					if len(cands) > 0 {
+						s := rapid.SampledFrom(cands).Draw(rt, "site")
 						l := s.list
-						e := clone(l.E[rapid.IntRange(0, len(l.E)-1).Draw(rt, "dupelem")])
-						at := rapid.IntRange(0, len(l.E)).Draw(rt, "at")
-						l.E = append(l.E[:at:at], append([]ref.V{e}, l.E[at:]...)...)
+						insert := func(e ref.V) {
+							at := rapid.IntRange(0, len(l.E)).Draw(rt, "at")
+							l.E = append(l.E[:at:at], append([]ref.V{e}, l.E[at:]...)...)
+						}
+						inj = "exact_copy"
+						if how == 1 {
+							inj = "nil_and_empty"
+							insert(nil)
+							insert(ref.Zero(s.et))
+						} else {
+							from := rapid.IntRange(0, len(l.E)-1).Draw(rt, "dupelem")
+							if idx := skElems(s); len(idx) > 0 {
+								from = rapid.SampledFrom(idx).Draw(rt, "dupskelem")
+							}
+							e := clone(l.E[from])
+							if how == 2 {
+								holder := &ref.ListV{E: []ref.V{e}}
+								var inner []site
+								nilEmptySites(&ref.Type{Kind: ref.List, Elem: s.et}, holder, 0, &inner)
+								if len(inner) > 0 {
+									rapid.SampledFrom(inner).Draw(rt, "toggle").apply()
+									e = holder.E[0]
+									inj = "copy_with_nil_empty_toggle"
+								}
+							}
+							injSK = hasStructKeyedMap(s.et, e)
+							insert(e)
+						}
+						injElem = s.et.Kind.String()
 						c.Kind = "set_duplicate_injected"
 						depth = s.depth
 					}
@@ -1148,7 +1314,12 @@ func TestDeepEqual(t *testing.T) {
 				vt.Class("leaf_" + depthClass(depth))
 				vt.ClassIf(mu.mapKey, "only_map_key_differs")
 			}
-			vt.ClassIf(c.Kind == "set_duplicate_injected", "dup_"+depthClass(depth))
+			if c.Kind == "set_duplicate_injected" {
+				vt.Class("dup_" + depthClass(depth))
+				vt.Class("inject:" + inj)
+				vt.Class("inject_elem:" + injElem)
+				vt.ClassIf(injSK, "inject:element_with_struct_keyed_map")
+			}
 			vt.ClassIf(hasStructKeyedMap(top, asV(a)) || hasStructKeyedMap(top, asV(b)), "struct_keyed_map")
 			if c.Kind == "one_leaf" && (depth >= 2 || mu.mapKey) {
 				vt.Nontrivial(base.Files[base.Main] + c.Gen + c.Struct + fmt.Sprint(c.A) + fmt.Sprint(c.B))
